@@ -1141,14 +1141,15 @@ pub fn cmd_string_first(_interp: &mut Interp, _: ContextID, argv: &[Value]) -> M
         0
     };
 
-    let pos_byte: Option<usize> = haystack
+    // The byte offset of the start character, and of the match relative to it.
+    let pos_byte: Option<(usize, usize)> = haystack
         .char_indices()
         .nth(start_char)
-        .and_then(|(start_byte, _)| haystack[start_byte..].find(needle));
+        .and_then(|(start_byte, _)| haystack[start_byte..].find(needle).map(|b| (start_byte, b)));
 
     let pos_char: MoltInt = match pos_byte {
         None => -1,
-        Some(b) => haystack[b..]
+        Some((start_byte, b)) => haystack[start_byte..]
             .char_indices()
             .take_while(|(i, _)| *i < b)
             .count() as MoltInt
